@@ -76,8 +76,30 @@ def run_case(case):
     a.connect(c, window=case["win"][3], blocking=False, skip=True, delay_dist=dd(3, 0.005))
     nodes = {"a": a, "b": b, "c": c}
     g = generate_graphs(nodes, case["ts_max"], num_episodes=case["eps"], rng=jax.random.PRNGKey(case["key"]))
-    graph = Graph(nodes=nodes, supervisor=c, graphs_raw=g, supergraph=getattr(const.Supergraph, case["mode"]), prune=case["prune"], progress_bar=False)
-    return static_replay(graph)
+    kw = dict(nodes=nodes, supervisor=c, graphs_raw=g, supergraph=getattr(const.Supergraph, case["mode"]), prune=case["prune"], progress_bar=False)
+    graph = Graph(**kw)
+    bad, nreads, sizes = static_replay(graph)
+    # user-supplied sizes: one slot less than the largest requirement of a producer must be refused (an output would be overwritten before its last scheduled reader);
+    # exactly the largest requirement (as an int and as a one-element list) must be accepted and replay correctly
+    req = {k: [int(x) for x in v] for k, v in graph._buffer_sizes.items() if len(v) > 0}
+    cand = sorted(req, key=lambda k: (-max(req[k]), k))
+    if cand and max(req[cand[0]]) >= 2:
+        name, need = cand[0], max(req[cand[0]])
+        try:
+            Graph(**kw, buffer_sizes={name: need - 1})
+            bad.append(dict(kind="inadmissible-user-size-accepted", producer=name, required=req[name], given=need - 1))
+        except AssertionError:
+            pass
+        for form in (need, [need]):
+            try:
+                g2 = Graph(**kw, buffer_sizes={name: form})
+                b2, n2, _ = static_replay(g2)
+                nreads += n2
+                if b2:
+                    bad.append(dict(kind="wrong-read-with-admissible-user-size", producer=name, given=form, first=b2[0]))
+            except AssertionError:
+                bad.append(dict(kind="admissible-user-size-refused", producer=name, required=req[name], given=form))
+    return bad, nreads, sizes
 
 
 def _safe_run(case):
